@@ -7,7 +7,7 @@ from typing import List, Optional
 from ..engine import own_walk
 from ..model import AnalysisInconclusive, ClassInfo
 from ..siblings import canonical_body, dump, first_difference, show_stmt
-from .common import concrete_devices, is_name, stmt_key
+from .common import concrete_devices, is_name, raise_class, stmt_key
 
 EXPLANATION = (
     "C16: sibling agreement. The set of members each device class defines is compared with an allow-list "
@@ -30,15 +30,24 @@ def run(ctx) -> None:
     ctx.guard("C16.generic-refuses", generic_refuses)
     # identical histories: both copies of transfer count the condensed entries and the LVH steps the same (required) way,
     # and hand the same liquid to the dispense
-    from . import c01, c11
+    from . import c01, c06, c07, c11
     from .common import concrete_devices
 
     for dev in concrete_devices(ctx):
         ctx.reuse("C16.history-twins", c11.condense_count, dev)
         ctx.reuse("C16.history-twins", c11.lvh_count, dev)
         ctx.reuse("C16.state-twins", c01.pair_transfer, dev)
+        ctx.reuse("C16.step-twins", c07.step_block, dev)
+        ctx.reuse("C16.step-twins", c07.tip_action, dev)
+        ctx.reuse("C16.step-twins", c07.breaks, dev)
+        ctx.reuse("C16.step-twins", c07.reject, dev)
+        ctx.reuse("C16.step-twins", c06.wiring, dev)
+        ctx.reuse("C16.step-twins", c06.iteration_space, dev)
     # distribute (one shared implementation) books amounts that do not depend on the device's well numbering
     ctx.reuse("C16.state-twins", c01.pair_distribute, "C01.pair-distribute")
+    from . import c04
+
+    ctx.reuse("C16.state-twins", c04.pairing_family)
     # the order of the steps does not depend on the device: rows are ordered by well ID, not by device position
     from . import c18
 
@@ -176,6 +185,36 @@ def transfer_twins(ctx) -> None:
         ska, skb = effect_skeleton(ctx, ref, devs[0]), effect_skeleton(ctx, other, dev)
         if ska == skb:
             ctx.rep.holds(rule, c, f"statements differ at {d[0]} but the effect skeletons ({len(ska)} effectful events with their conditions, loops and argument origins) are identical", where=other.where())
+            continue
+        # coarse skeleton: which effectful operations happen in which order and how deeply nested; the arguments and the
+        # conditions of every one of them are checked per copy against the same specification (C16.state-twins,
+        # C16.history-twins, C16.step-twins), so a copy that was merely restructured still agrees here
+        coarse_a = [(e[0], len(e[4])) for e in ska]
+        coarse_b = [(e[0], len(e[4])) for e in skb]
+        # ... and neither copy raises one of the volume / invalid-operation errors on its own (they come from the shared
+        # aspirate/dispense): a copy that rejects earlier than the other leaves different state and records behind
+        def own_raises(fn, dv):
+            out = set()
+            fvx = ctx.fv(fn, dv)
+            for s_ in own_walk(fn.node):
+                if isinstance(s_, ast.Raise):
+                    out.add(raise_class(fvx, s_)[0])
+            for cs_ in fvx.calls():
+                hv_ = fvx._helper_view(cs_.call)
+                if hv_ is not None:
+                    for s_ in own_walk(hv_[0].node):
+                        if isinstance(s_, ast.Raise):
+                            out.add(raise_class(ctx.fv(hv_[0], hv_[1]), s_)[0])
+            return out & KEEP_EXC
+
+        ra, rb = own_raises(ref, devs[0]), own_raises(other, dev)
+        if ra != rb:
+            ctx.rep.refuted(rule, c, f"{devs[0].name}.transfer raises {sorted(ra) or 'no'} volume/invalid-operation errors of its own, {dev.name}.transfer {sorted(rb) or 'none'}: "
+                            "one device rejects an operation at a different point (different error, different labware state and records left behind)", where=other.where())
+            continue
+        if coarse_a == coarse_b:
+            ctx.rep.holds(rule, c, f"statements differ at {d[0]} (one copy was restructured); both copies perform the same {len(coarse_a)} effectful operations in the same order and nesting, "
+                          "and each copy is checked against the common per-device rules", where=other.where())
             continue
         diff_i = next((i for i, (x, y) in enumerate(zip(ska, skb)) if x != y), min(len(ska), len(skb)))
         ea = ska[diff_i] if diff_i < len(ska) else None
